@@ -61,6 +61,15 @@ def _registry(prop):
                 v = Variant(prop, "seeded-%s" % sid, [], expect="%s." % prop, why=json.load(open(meta)).get("change", ""))
                 v.patch = (patch, False)
                 out.append(v)
+    # independently written behaviour-preserving refactorings kept under /verif/twins: silent under every property
+    tdir = os.path.join(HERE, "twins")
+    if os.path.isdir(tdir):
+        for tid in sorted(os.listdir(tdir)):
+            patch = os.path.join(tdir, tid, "patch.diff")
+            if os.path.exists(patch):
+                v = Variant(prop, "refactor-%s" % tid, [], expect=None, why="behaviour-preserving refactoring written without knowledge of the checks")
+                v.patch = (patch, False)
+                out.append(v)
     return out
 
 
